@@ -130,7 +130,13 @@ type plan struct {
 var combMarks = []rune{0x0301, 0x0308, 0x0323, 0x20d7, 0x0338}
 
 func drawColor(t *rapid.T, label string) tcell.Color {
-	switch rapid.IntRange(0, 9).Draw(t, label) {
+	switch rapid.IntRange(0, 11).Draw(t, label) {
+	case 10:
+		// a valid palette index that no table gives an RGB value for
+		return tcell.PaletteColor(rapid.IntRange(379, 2000).Draw(t, label+"big"))
+	case 11:
+		// an RGB colour written as opaque ARGB (bits above the 24 set)
+		return tcell.NewHexColor(int32(-0x1000000 | rapid.IntRange(0, 0xffffff).Draw(t, label+"argb")))
 	case 0, 1:
 		return tcell.ColorDefault
 	case 2:
@@ -275,7 +281,11 @@ func drawOps(t *rapid.T, maxW, maxH int, withResize bool) []op {
 			ops = append(ops, op{Kind: "cursor", X: rapid.IntRange(-1, maxW).Draw(t, "cx"), Y: rapid.IntRange(-1, maxH).Draw(t, "cy")})
 		case k == 24:
 			o := op{Kind: "curstyle", CS: tcell.CursorStyle(rapid.IntRange(0, 6).Draw(t, "cs")), Col: tcell.ColorNone}
-			switch rapid.IntRange(0, 3).Draw(t, "cscol") {
+			switch rapid.IntRange(0, 5).Draw(t, "cscol") {
+			case 4:
+				o.Col = tcell.PaletteColor(rapid.IntRange(256, 2000).Draw(t, "ccbig"))
+			case 5:
+				o.Col = tcell.NewHexColor(int32(-0x1000000 | rapid.IntRange(0, 0xffffff).Draw(t, "ccargb")))
 			case 0:
 				o.Col = tcell.NewRGBColor(int32(rapid.IntRange(0, 255).Draw(t, "ccr")), 16, 255)
 			case 1:
